@@ -94,6 +94,20 @@ def install(prog):
             return some(ext) if ext is not None else NONE
         return some(stem)
 
+    @B('Path::with_file_name')
+    def b_with_file_name(ctx, a, callee):
+        p = to_path(a[0])
+        name = D(a[1])
+        if type(name) is PathV:
+            name = name.to_str()
+        if not p.comps:
+            return PathV(p.absolute, (name,))
+        return PathV(p.absolute, p.comps[:-1] + (name,))
+
+    @B('<OsStr as Default>::default', '<&OsStr as Default>::default')
+    def b_osstr_default(ctx, a, callee):
+        return ''
+
     @B('Path::with_extension')
     def b_with_extension(ctx, a, callee):
         p = to_path(a[0])
